@@ -351,8 +351,24 @@ impl Lowerer<'_> {
             let to_drop = self.stack_slots.pop().unwrap();
 
             if let Some(guard) = &arm.guard {
-                let op = self.expr(guard);
-                let op = self.assign_to_var(op, TyRef::BOOL);
+                // The temporaries of the guard get their own frame and are
+                // dropped as soon as the guard has been evaluated. In the
+                // frame around the match they would also be dropped when
+                // this guard was never evaluated.
+                let op = self.undropped_tmp();
+                self.stack_slots.push(Vec::new());
+
+                let val = self.expr(guard);
+                self.do_assign(
+                    Place::new(op.clone(), TyRef::BOOL),
+                    TyRef::BOOL,
+                    val,
+                );
+
+                let guard_temps = self.stack_slots.pop().unwrap();
+                for (var, ty) in guard_temps.into_iter().rev() {
+                    self.emit_drop(Place::new(var, ty), ty);
+                }
 
                 let ident = Identifier::from(format!("guard_{}_drop", i));
                 let intermediate_lbl =
